@@ -817,10 +817,10 @@ PROPS["C08"] = {
                   "(built_create_yields). Update, recover and deactivate requests built by the builders are accepted: without an anchoring window (the Sidetree client never sets one; anchor "
                   "origin absent or a string; protected header names and values plain strings) unconditionally in the inputs (update/recover/deactivate_built_accepted_unwindowed) - "
                   "the read-back of the compact JWS is proved (Lemmas/Framing.lean: three dot-free base64url segments, UTF-8, Go's header marshalling, the JSON reader and RFC 8785 "
-                  "give signModel_reads_back, and decoding the normal form of the signed model yields the signed fields); with a window whose bounds are below 2^53 in magnitude likewise "
+                  "give signModel_reads_back, and decoding the normal form of the signed model yields the signed fields); with a window whose bounds are at most 2^53 in magnitude - every window the builders' guard admits - likewise "
                   "unconditionally (update/recover/deactivate_built_accepted_windowed, Props/C08Window.lean: the integer members are printed as digits and read back as the same integers - "
-                  "Lemmas/NumInt*.lean, RoundTripNum.lean, FramingNum.lean); for the two bounds +-2^53, which the builders' guard still admits, the read-back stays an explicit hypothesis "
-                  "validated by the stream. The driver evaluates the hypotheses of the windowed theorems on every built step. Everything else the parser demands (reveal "
+                  "Lemmas/NumInt*.lean, RoundTripNum.lean, FramingNum.lean; the two bounds +-2^53 by kernel evaluation of the printer), so the theorems apply to the builders "
+                  "themselves (newUpdateRequest_accepted, newDeactivateRequest_accepted). The driver evaluates the hypotheses of the windowed theorems on every built step. Everything else the parser demands (reveal "
                   "value, key freshness, delta, hashes, windows) is derived from the builders' own checks. Recover additionally needs update != recovery commitment, which the builder "
                   "does not enforce (known finding D11). Builders refuse equal commitments (create), commitments under another or an unsupported hash algorithm, key reuse (update, "
                   "recover), missing or double content, bad signers. "
